@@ -5,9 +5,9 @@ import NA.Model.CryptoMapEngine
 `applyAll` executes the structured change list of `NA.Vpn.engine` on a configuration of the same
 shape as the engine's input, so that the result can be compared with the target and fed to a second
 run.  A change a device would refuse yields `none`: a referenced transform-set that does not exist,
-`no` for a line that is not there, defining a transform-set twice, deleting a transform-set that is
+a sequence number outside 1..65535, `set peer` for an entry that has another peer, `no` for a line that is not there, defining a transform-set twice, deleting a transform-set that is
 still referenced, binding a crypto map that does not exist, removing the last line of a bound map.
-One value per attribute (`attr`) of an entry: a second `crypto map M N <attr> …` replaces the first; peers accumulate.
+One value per attribute (`attr`) of an entry: a second `crypto map M N <attr> …` replaces the first.
 -/
 namespace NA.Vpn
 
@@ -20,25 +20,24 @@ def insertAfterSeq (c : Cmd) (text : String) (l : List (Cmd × String)) : List (
   | [] => l ++ [(c, text)]
   | keep => keep.reverse ++ [(c, text)] ++ l.drop keep.length
 
-/-- One value per attribute and entry: a line for an attribute the entry already has replaces that line
-(a further `set peer` is appended to the peer list instead); otherwise the new line goes behind the entry's last line. -/
+/-- One value per attribute and entry: a line for an attribute the entry already has replaces that line;
+otherwise the new line goes behind the entry's last line. -/
 def upsert (c : Cmd) (text : String) (l : List (Cmd × String)) : List (Cmd × String) :=
   if l.any (fun x => x.1.seq == c.seq && x.1.attr == c.attr) then
-    l.map fun x =>
-      if x.1.seq == c.seq && x.1.attr == c.attr then
-        if c.attr == "set peer" && x.1.key != c.key then
-          let k := x.2 ++ " " ++ (c.key.drop 9).toString
-          ({ x.1 with key := k, body := [k] }, k)
-        else (c, text)
-      else x
+    l.map fun x => if x.1.seq == c.seq && x.1.attr == c.attr then (c, text) else x
   else insertAfterSeq c text l
+
+/-- the entry with that sequence number belongs to another peer (a real device would append the new peer to its list) -/
+def occupied (c : Cmd) (l : List (Cmd × String)) : Bool :=
+  c.attr == "set peer" && l.any fun x => x.1.seq == c.seq && x.1.attr == "set peer" && x.1.key != c.key
 
 def tsReferenced (cf : Config) (n : String) : Bool :=
   cf.maps.any fun m => m.2.2.any fun c => c.1.refs.contains n
 
 def applyChg (cf : Config) : Chg → Option Config
   | .add c names =>
-    if names.all (fun n => cf.ts.any fun t => t.1 == n) then
+    if names.all (fun n => cf.ts.any fun t => t.1 == n) && decide (1 ≤ c.seq) && decide (c.seq ≤ 65535) &&
+        !(cf.maps.any fun m => m.1 == c.name && occupied c m.2.2) then
       let nc : Cmd := { c with refs := names }
       let text := interleave c.body names
       if cf.maps.any (fun m => m.1 == c.name) then
